@@ -305,6 +305,12 @@ def random_cfg(rng, alg=None, family="roomy", nobs=None, maxn=4):
         # an observation that produces no data at all (a data product rate
         # below half a unit is rounded to 0 by the configuration parser)
         obs[rng.randrange(len(obs))]["rate"] = 0
+        if rng.random() < 0.5:
+            # nothing but data-less observations due at the very first step
+            if rng.random() < 0.5:
+                del obs[1:]
+            for o in obs:
+                o["rate"], o["est"] = 0, 0
     if family == "roomy" and len(obs) > 1 and rng.random() < 0.15:
         # a quiet gap: everything before the last observation has drained when it falls due
         obs[-1]["est"] += rng.randint(8, 14)
